@@ -56,6 +56,16 @@ Theorem C02_buffer_single_owner :
 Proof. exact buffer_single_owner. Qed.
 Print Assumptions C02_buffer_single_owner.
 
+(** No deadlock: in every reachable state in which some thread has not finished, some action is
+    enabled (a thread waiting for outMu waits for a holder that can always proceed). *)
+Theorem C02_no_deadlock :
+  forall (D R : Type) (line : list D -> R -> list N) (enabled : R -> bool) (grow : N -> N -> N)
+         (f : cflags) (prog : list (list (instr D R))) (sched : list label) (s : state D R),
+  discipline f = true -> run D R line enabled grow f (init D R prog) sched = Some s -> finished D R s = false ->
+  exists l s', step D R line enabled grow f s l = Some s'.
+Proof. exact no_deadlock. Qed.
+Print Assumptions C02_no_deadlock.
+
 (** Facts read from the source select the flags; a fact table satisfying the discipline gives the theorem. *)
 Theorem C02_atomic_lines_from_facts :
   forall (x : conc_facts), conc_discipline x = true ->
